@@ -233,10 +233,12 @@ impl Bitstr {
                 pos += n;
             }
         } else {
-            for byte in data_bytes {
-                let (val, n) = cut_bits(*byte, pos, end);
-                acc |= (val as u128) << (pos - self.start()) as u32;
-                pos += n;
+            // little-endian: successive 8-bit groups of the bit sequence (not of the
+            // backing bytes), least significant group first
+            let mut shift = 0;
+            for (val, n) in self.iter8() {
+                acc |= (val as u128) << shift;
+                shift += n;
             }
         }
         acc
